@@ -365,28 +365,29 @@ func (d dgram) describe() string {
 // NAT; only the private address is signalled, so the peer has to discover a peer-reflexive candidate),
 // "srflx" (server-reflexive candidate on its own socket behind a cone NAT, the external address is signalled).
 type pairCfg struct {
-	KindsA    []string `json:"kinds_a"`
-	KindsB    []string `json:"kinds_b"`
-	Blocked   []string `json:"blocked,omitempty"` // directed socket links that never deliver, e.g. "b0>a0"
-	RoleA     string   `json:"role_a,omitempty"`  // "controlling" (default) | "controlled"
-	RoleB     string   `json:"role_b,omitempty"`  // "controlled" (default) | "controlling"
-	TieA      uint64   `json:"tie_a,omitempty"`
-	TieB      uint64   `json:"tie_b,omitempty"`
-	LiteB     bool     `json:"lite_b,omitempty"`
-	Renom     bool     `json:"renom,omitempty"`
-	NomValues []uint32 `json:"nom_values,omitempty"` // first values of each agent's nomination value generator
-	LoseA     int      `json:"lose_a,omitempty"`     // the first LoseA Binding requests A sends are lost (a loss prefix as long as the retry budget)
-	LoseB     int      `json:"lose_b,omitempty"`
-	Ticks     int      `json:"ticks"` // per agent
-	Drops     int      `json:"drops"`
-	Dups      int      `json:"dups"`
-	Restarts  int      `json:"restarts,omitempty"`
-	FairMax   int      `json:"fair_max,omitempty"` // rounds of the fair suffix
-	Trickle   bool     `json:"trickle,omitempty"`  // remote candidates are signalled by events instead of up front
-	Dev       int      `json:"dev,omitempty"`      // >0: deviation-bounded mode with this many deviations
-	PrioA     []uint32 `json:"prio_a,omitempty"`
-	PrioB     []uint32 `json:"prio_b,omitempty"`
-	Monitor   bool     `json:"monitor,omitempty"` // evaluate the C03 selection ledger after every event
+	KindsA     []string `json:"kinds_a"`
+	KindsB     []string `json:"kinds_b"`
+	Blocked    []string `json:"blocked,omitempty"` // directed socket links that never deliver, e.g. "b0>a0"
+	RoleA      string   `json:"role_a,omitempty"`  // "controlling" (default) | "controlled"
+	RoleB      string   `json:"role_b,omitempty"`  // "controlled" (default) | "controlling"
+	TieA       uint64   `json:"tie_a,omitempty"`
+	TieB       uint64   `json:"tie_b,omitempty"`
+	LiteB      bool     `json:"lite_b,omitempty"`
+	Renom      bool     `json:"renom,omitempty"`
+	NomValues  []uint32 `json:"nom_values,omitempty"`  // first values of each agent's nomination value generator
+	HoldSignal []string `json:"hold_signal,omitempty"` // "i:j": candidate j of side i is not signalled up front; it reaches the peer by the event signal:i:j
+	LoseA      int      `json:"lose_a,omitempty"`      // the first LoseA Binding requests A sends are lost (a loss prefix as long as the retry budget)
+	LoseB      int      `json:"lose_b,omitempty"`
+	Ticks      int      `json:"ticks"` // per agent
+	Drops      int      `json:"drops"`
+	Dups       int      `json:"dups"`
+	Restarts   int      `json:"restarts,omitempty"`
+	FairMax    int      `json:"fair_max,omitempty"` // rounds of the fair suffix
+	Trickle    bool     `json:"trickle,omitempty"`  // remote candidates are signalled by events instead of up front
+	Dev        int      `json:"dev,omitempty"`      // >0: deviation-bounded mode with this many deviations
+	PrioA      []uint32 `json:"prio_a,omitempty"`
+	PrioB      []uint32 `json:"prio_b,omitempty"`
+	Monitor    bool     `json:"monitor,omitempty"` // evaluate the C03 selection ledger after every event
 }
 
 const (
@@ -618,8 +619,22 @@ func newPairWorld(raw json.RawMessage) *pairWorld {
 	pw.addLocals(pw.side[0], cfg.KindsA, cfg.PrioA)
 	pw.addLocals(pw.side[1], cfg.KindsB, cfg.PrioB)
 	if !cfg.Trickle {
-		pw.signalAll(pw.side[1], pw.side[0])
-		pw.signalAll(pw.side[0], pw.side[1])
+		held := func(i, j int) bool {
+			for _, h := range cfg.HoldSignal {
+				if h == fmt.Sprintf("%d:%d", i, j) {
+					return true
+				}
+			}
+
+			return false
+		}
+		for _, dir := range [][2]*sideState{{pw.side[1], pw.side[0]}, {pw.side[0], pw.side[1]}} {
+			for j := range dir[0].signal {
+				if !held(dir[0].idx, j) {
+					pw.signalOne(dir[0], dir[1], j)
+				}
+			}
+		}
 	}
 	settle()
 	pw.start(pw.side[0], pw.side[1], cfg.RoleA != "controlled", cfg.TieA)
